@@ -88,7 +88,7 @@ def collect(ctx):
 def run(ctx):
     ctx.extract()
     ctx.build_lean((["GomlVerif.Props.C03"] if os.path.exists(os.path.join(vlib.LEAN, "GomlVerif/Props/C03.lean")) else []) +
-                   ["GomlVerif.Props.Unify"])
+                   ["GomlVerif.Props.Unify", "GomlVerif.Props.Solve"])
     if not ctx.build_harness():
         return ctx.finish("proof", {"evaluations": 0, "distinct_nontrivial": 0}, [], "lake build")
     progs, feats, kinds = collect(ctx)
@@ -214,6 +214,7 @@ def run(ctx):
                        "a program with one injected type error is rejected, but not by the typer", payload)
     # ------------------------------------------------------------------ the unifier: scripts on the real Typer vs the model
     uni = unify_stream.run(ctx)
+    sol = unify_stream.run_solve(ctx)
     # programs whose rejection goes through each diagnostic class of `unify` (rows ILLU of the ill-typed stream)
     prog_classes, prog_miss = {}, []
     for k, d in progs.items():
@@ -228,8 +229,8 @@ def run(ctx):
         ctx.broken_ties.append(("illu programs", "no diagnostic of the aimed unify class: " + ", ".join(prog_miss[:6])))
     ctx.violations.sort(key=lambda v: len(v[2].get("src") or v[2].get("script") or "x" * 10**6))
     cov = {
-        "evaluations": n_dumps + n_ill + uni.get("unify_steps", 0),
-        "distinct_nontrivial": len(distinct) + len(ill_kinds) + uni.get("distinct_unify_steps", 0),
+        "evaluations": n_dumps + n_ill + uni.get("unify_steps", 0) + sol.get("queues", 0),
+        "distinct_nontrivial": len(distinct) + len(ill_kinds) + uni.get("distinct_unify_steps", 0) + sol.get("distinct(diagnostics, kinds, left-over)", 0),
         "rule": "one evaluation = one real stage dump of an accepted program checked by Wt.errs/Closed, or one ill-typed variant compiled by the "
                 "real compiler, or one `unify` step run on the real Typer and on the model; programs: 74 corpus programs, witnesses under corpus/C03 and C07, generated programs (C01's generator incl. the "
                 "rich-generics library); distinct by Core size / by kind of injected error / by (class, both argument types) of a unify step",
@@ -243,7 +244,8 @@ def run(ctx):
         "generator_features": feats, "injection_kinds": kinds,
         "unifier(real Typer::unify/norm driven through the goml_verif hook, vs Model/Unify.lean)": uni,
         "unify_diagnostic_classes_reached_by_whole_programs(class: programs)": prog_classes,
-        "impl_oracle_failures": len(ctx.violations) + sum(h["count"] for h in ctx.known_hits), "model_diffs": uni.get("model_diffs", 0),
+        "solver(real Typer::solve on generated constraint queues, vs Model/Solve.lean)": sol,
+        "impl_oracle_failures": len(ctx.violations) + sum(h["count"] for h in ctx.known_hits), "model_diffs": uni.get("model_diffs", 0) + sol.get("model_diffs", 0),
     }
     ctx.assumptions += [
         "Wt.errs (Model/Wt.lean) is our statement of type consistency of the IR; the signature environment is dumped from the real genv/monoenv/liftenv",
